@@ -1185,6 +1185,18 @@ impl CompileState<'_> {
 
                 all_values.push((value.clone(), v_span));
             }
+
+            // A binding pattern (`Ok(x)`, `Err(e)`, `Some(x)`) must be the only pattern of
+            // its arm: any other alternative would enter the arm with nothing to bind.
+            if values.len() > 1 {
+                if let Some(binding) = values.iter().find(|v| is_binding_pattern(&v.inner)) {
+                    return Err(self.err(InvalidExpression(
+                        "a binding pattern cannot be combined with other patterns using `|`",
+                        binding.clone(),
+                        None,
+                    )));
+                }
+            }
         }
 
         // find duplicate default arms
@@ -1942,6 +1954,16 @@ impl CompileState<'_> {
             self.identifier_types.exit_block();
         }
         Ok(output)
+    }
+}
+
+/// Reports whether the pattern is `Ok(x)`, `Err(x)` or `Some(x)` with an identifier `x`.
+fn is_binding_pattern(pattern: &ExprKind) -> bool {
+    match pattern {
+        ExprKind::Ok(inner) | ExprKind::Err(inner) | ExprKind::Optional(Some(inner)) => {
+            matches!(inner.inner, ExprKind::Identifier(_))
+        }
+        _ => false,
     }
 }
 
